@@ -430,6 +430,20 @@ func c15Worker(in, out string) error {
 				res.Counts["args:single-result-on-wildcard(no model term)"]++
 				continue
 			}
+			if kc.Op == "NewMap" {
+				skip := false
+				for _, p := range kc.Pairs {
+					old := strings.SplitN(p, ":", 2)[0]
+					if keys, okp := specParse(old); (okp && hasIndexOnStar(keys)) || (!okp && pathHasStar(old) && strings.Contains(old, "[")) {
+						skip = true
+					}
+				}
+				if skip {
+					// an index on a wildcard step of an old path selects by map-iteration order
+					res.Counts["args:newmap-index-on-wildcard(no model term)"]++
+					continue
+				}
+			}
 			if keys, okp := specParse(kc.Path); (okp && hasIndexOnStar(keys)) || (!okp && pathHasStar(kc.Path) && strings.Contains(kc.Path, "[")) {
 				// an index on a wildcard step selects by map-iteration order: no deterministic observable to compare
 				res.Counts["args:index-on-wildcard(no model term)"]++
